@@ -172,6 +172,7 @@ pub fn plan(property: &str, tier: Tier) -> Option<Plan> {
             jobs.push(g("shapes/xp", "rel", if q { 6 } else { 8 }).armed(&a));
             jobs.push(g("c01/late", "rel", if q { 7 } else { 10 }).armed(&a));
             jobs.push(g("shapes/diamond", "rel", if q { 6 } else { 9 }).armed(&a));
+            jobs.push(g("shapes/pending", "rel", if q { 4 } else { 7 }).armed(&a));
             if !q {
                 jobs.push(g("c01/grammar3-maps", "rel", 5).armed(&a));
                 jobs.push(g("c01/grammar3-binds", "rel", 5).armed(&a));
@@ -196,7 +197,10 @@ pub fn plan(property: &str, tier: Tier) -> Option<Plan> {
             jobs.push(g("shapes/diamond", "rel", if q { 6 } else { 9 }).armed(&a));
             jobs.push(g("shapes/diamond", "dbg", if q { 5 } else { 8 }).armed(&a));
             jobs.push(g("c01/catalogue", "dbg", if q { 5 } else { 7 }).armed(&a));
-            ("model_checking", mc_rule, vec!["value domain {0,1,2}", "programs of <= 11 nodes", "internal recompute schedules reached through observe / un-observe orders of <= 2-3 observers"], if q { 60 } else { 900 })
+            // a bind main lifted inside the recompute heap past a pending node of its new right-hand side
+            jobs.push(g("shapes/pending", "rel", if q { 5 } else { 7 }).armed(&a));
+            jobs.push(g("shapes/pending", "dbg", if q { 4 } else { 6 }).armed(&a));
+            ("model_checking", mc_rule, vec!["value domain {0,1,2}", "programs of <= 15 nodes", "internal recompute schedules reached through observe / un-observe orders of <= 2-3 observers"], if q { 60 } else { 900 })
         }
         "C03" => {
             let a = ["C03"];
@@ -233,6 +237,8 @@ pub fn plan(property: &str, tier: Tier) -> Option<Plan> {
                 jobs.push(g("shapes/fanout", prof, if q { 6 } else { 9 }).armed(&a));
                 jobs.push(g("shapes/xp", prof, if q { 6 } else { 8 }).armed(&a));
                 jobs.push(g("shapes/xp-writes", prof, if q { 5 } else { 7 }).armed(&a));
+                jobs.push(g("shapes/fn-writes", prof, if q { 6 } else { 9 }).armed(&a));
+                jobs.push(g("shapes/pending", prof, if q { 5 } else { 7 }).armed(&a));
                 jobs.push(g("c01/late", prof, if q { 6 } else { 9 }).armed(&a));
                 jobs.push(g("shapes/diamond", prof, if q { 5 } else { 8 }).armed(&a));
                 jobs.push(g("c09/self_disallow", prof, if q { 5 } else { 8 }).armed(&a));
@@ -290,6 +296,8 @@ pub fn plan(property: &str, tier: Tier) -> Option<Plan> {
             jobs.push(g("shapes/xp", "rel", if q { 7 } else { 9 }).armed(&a));
             jobs.push(g("shapes/xp-writes", "rel", if q { 7 } else { 9 }).armed(&a));
             jobs.push(g("shapes/xp-writes", "dbg", if q { 6 } else { 8 }).armed(&a));
+            // a node function writes a variable (deferred): the observers still show one assignment
+            jobs.push(g("shapes/fn-writes", "rel", if q { 7 } else { 10 }).armed(&a));
             ("model_checking", mc_rule, vec!["reads are issued after every action on every handle, and from inside every node function / handler in family c07/reads"], if q { 60 } else { 900 })
         }
         "C09" => {
@@ -347,6 +355,8 @@ pub fn plan(property: &str, tier: Tier) -> Option<Plan> {
             jobs.push(j);
             jobs.push(g("c01/catalogue", "dbg", if q { 4 } else { 6 }).armed(&a));
             jobs.push(g("c11/on_update", "dbg", if q { 4 } else { 6 }).armed(&a));
+            jobs.push(g("shapes/fn-writes", "rel", if q { 6 } else { 9 }).armed(&a));
+            jobs.push(g("shapes/pending", "rel", if q { 4 } else { 7 }).armed(&a));
             let mut j = g("c10/focus", "rel", if q { 8 } else { 10 }).armed(&a);
             j.split_first = true;
             jobs.push(j);
@@ -381,7 +391,13 @@ pub fn plan(property: &str, tier: Tier) -> Option<Plan> {
                 jobs.push(w("c08/selffeed", "dbg", 5));
                 jobs.push(w("c08/dropped", "dbg", 6));
                 jobs.push(w("c08/never", "rel", 7));
+                // the written variable is unwatched at the moment of the write and gets a reader later in the same stabilise
+                jobs.push(w("c08/late", "rel", 6));
+                jobs.push(w("c08/late", "dbg", 5));
             } else {
+                jobs.push(w("c08/late", "rel", 8));
+                jobs.push(w("c08/late", "dbg", 7));
+                jobs.push(w("c08/late-full", "rel", 5));
                 jobs.push(w("c08/never", "rel", 9));
                 jobs.push(w("c08/outside-full", "rel", 8));
                 jobs.push(w("c08/node", "rel", 7));
@@ -398,7 +414,7 @@ pub fn plan(property: &str, tier: Tier) -> Option<Plan> {
                 jobs.push(w("c08/selffeed", "dbg", 6));
                 jobs.push(w("c08/dropped", "dbg", 7));
             }
-            ("model_checking", "every write script (all sequences of <= 3 of the five write operations; thorough: <= 4) issued from a node function, a bind closure, an update handler or outside, on observed and unobserved variables, combined with every history of {trigger, outside write, observe readers, flip, stabilise, stabilise-until-stable} up to the depth bound; states merged on engine dump + variable model", vec!["variable type i32, constants {5,6}", "get/replace return values inside node functions are not judged (the property makes no claim)"], if q { 60 } else { 900 })
+            ("model_checking", "every write script (all sequences of <= 3 of the five write operations; thorough: <= 4) issued from a node function, a bind closure, an update handler or outside, on observed and unobserved variables (including a variable that gets its first reader later in the writing stabilise), combined with every history of {trigger, outside write, observe readers, flip, stabilise, stabilise-until-stable} up to the depth bound; states merged on engine dump + variable model", vec!["variable type i32, constants {5,6}", "get/replace return values inside node functions are not judged (the property makes no claim)"], if q { 60 } else { 900 })
         }
         "C12" => {
             let a = ["C12"];
@@ -488,7 +504,11 @@ pub fn plan(property: &str, tier: Tier) -> Option<Plan> {
                 // the expert node is needed only through a regular bind that switches away from it in mid-stabilise
                 jobs.push(w("via", "rel", 7));
                 jobs.push(w("via", "dbg", 7));
+                // ... and its only dependency is invalidated in the same stabilise (focused alphabet, 11 actions needed)
+                jobs.push(w("via-inner", "rel", 11));
             } else {
+                jobs.push(w("via-inner", "rel", 13));
+                jobs.push(w("via-inner", "dbg", 12));
                 jobs.push(w("driver", "rel", 10));
                 jobs.push(w("driver", "dbg", 9));
                 jobs.push(w("via", "rel", 9));
